@@ -324,6 +324,14 @@ Proof.
     apply In_zseq in Hi1. apply In_zseq in Hi2. apply In_zseq in Hj1. apply In_zseq in Hj2. nia.
 Qed.
 
+Lemma region_enum_spec P m n ld : m <= ld ->
+  NoDup (region_enum P m n ld) /\
+  forall e, In e (region_enum P m n ld) <->
+    exists i j, 0 <= i < m /\ 0 <= j < n /\ P i j = true /\ e = i + j * ld.
+Proof.
+  intros H. split; [exact (region_enum_NoDup P m n ld H)|intro e; exact (region_enum_In P m n ld e)].
+Qed.
+
 (* column-major order is increasing memory order *)
 Lemma column_major_increasing m ld i1 j1 i2 j2 :
   m <= ld -> 0 <= i1 < m -> 0 <= i2 < m -> 0 <= j1 -> 0 <= j2 ->
